@@ -1,6 +1,6 @@
 # C08 simplify preserves meaning.
 
-from hplverif import astx, core, ev, gen, lib, mast, small, values
+from hplverif import astx, core, ev, gen, lib, mast, sem, small, values
 from hplverif.core import Violation
 from hplverif.tape import from_tape
 
@@ -81,49 +81,8 @@ def _contains_zero_divisor_or_undefined_constant(model, envs):
     return False
 
 
-PRE_STEPS = ('simplify', 'negate', 'split_first', 'split_last', 'refactor_1', 'refactor_2', 'join_self', 'this_var_this')
-
-
-def apply_pre(a, pre):
-    """The input of simplify need not come from the parser: apply a pipeline of other API functions to the parsed AST
-    first (their results are predicates / expressions like any other). Returns None when a step does not apply."""
-    from hpl import rewrite as rw
-    from hpl.ast import Not
-
-    for step in pre:
-        pred = bool(getattr(a, 'is_predicate', False))
-        boolean = pred or (getattr(a, 'is_expression', False) and a.data_type.value == 1)
-        try:
-            if step == 'simplify':
-                a = rw.simplify(a)
-            elif step == 'negate':
-                if not boolean:
-                    return None
-                a = a.negate() if pred else Not(a)
-            elif step in ('split_first', 'split_last'):
-                if not boolean:
-                    return None
-                parts = rw.split_and(a)
-                if not parts:
-                    return None
-                a = parts[0 if step == 'split_first' else -1]
-            elif step in ('refactor_1', 'refactor_2'):
-                if not boolean:
-                    return None
-                a = rw.refactor_reference(a, 'A')[0 if step == 'refactor_1' else 1]
-            elif step == 'join_self':
-                if not pred:
-                    return None
-                a = a.join(a.negate().negate())
-            elif step == 'this_var_this':
-                a = rw.replace_var_with_this(rw.replace_this_with_var(a, 'V9'), 'V9')
-            else:
-                raise ValueError(step)
-        except (TypeError, ValueError, AssertionError, AttributeError, KeyError, IndexError, ZeroDivisionError, OverflowError):
-            return None  # whether these functions fail is the business of C14
-        except Exception:
-            return None
-    return a
+PRE_STEPS = sem.PRE_STEPS
+apply_pre = sem.apply_pre
 
 
 def check_case(inp, limit=64, stats=None):
@@ -325,23 +284,18 @@ def shard(ctx, shard_no, nshards, n_random, small_stride):
 
     with ctx.timed('api-calls'):
         core.run_hypothesis(ctx, 'api', from_tape(gen_api_call), body_api, max(200, n_random // 3))
-    # small-scope family: deterministic slice (stride), split over shards
+    # small-scope families: deterministic slices (stride; the law tables denser, the aggregate tables completely), split over shards
     fams = small.families()
     tot = small.total(fams)
-    offset = ctx.seed % small_stride
     with ctx.timed('small'):
-        idx = offset + shard_no * small_stride
-        while idx < tot:
-            name, m = small.nth(fams, idx)
-            kind = 'condition' if name in small.boolean_family_names() else 'expression'
-            inp = {'kind': kind, 'text': mast.render(m), 'this': small.SMALL_THIS, 'aliases': small.SMALL_ALIASES}
+        for n_, (name, inp) in enumerate(sem.small_cases(ctx.seed, small_stride, shard_no, nshards, boolean_only=False)):
             try:
                 r = check_case(inp, limit=limit, stats=stats)
             except Violation as v:
                 ctx.report(v)
                 r = 'violation'
             ctx.case(inp['text'], r == 'changed', f'small:{name}:{r}', sample=inp['text'] if r == 'changed' else None)
-            if r == 'changed' and idx % 8 == 0:
+            if r == 'changed' and n_ % 8 == 0:
                 # the simplified form is itself an input (second application), and so is its negation
                 for pre in (['simplify'], ['simplify', 'negate']):
                     inp2 = dict(inp, pre=pre)
@@ -351,7 +305,6 @@ def shard(ctx, shard_no, nshards, n_random, small_stride):
                         ctx.report(v)
                         r2 = 'violation'
                     ctx.case((inp['text'], tuple(pre)), r2 == 'changed', f'small-derived:{r2}')
-            idx += small_stride * nshards
     for k, v in stats.items():
         ctx.count(k, v)
     if shard_no == 0:
